@@ -134,7 +134,8 @@ func (o *outcome) label(format string, args ...any) {
 // preciseFamilies: fault families whose offending node is beyond doubt (see evalMutant).
 var preciseFamilies = map[string]bool{
 	"retype": true, "wrong-kind": true, "empty": true, "escape": true,
-	"num-integer-keyword": true, "num-keyword": true, "num-other": true,
+	"num-integer-keyword": true, "num-keyword": true,
+	// not "num-other": a bad number among enum values is reported at the enum list
 }
 
 // nameLike: the faulted value is a name that other places refer to (a parameter
@@ -646,11 +647,11 @@ func TestMutants(t *testing.T) {
 		}
 	}
 	if vk.Tier() == "quick" || vk.InReplay() {
-		vk.Rapid(u, 3200, regress, drawMutant(bases), check)
+		vk.Rapid(u, 2400, regress, drawMutant(bases), check)
 		return
 	}
 	// thorough: the regression list, a sampled part over the quick bases, then the enumeration
-	vk.Rapid(u, 4000, regress, drawMutant(bases), check)
+	vk.Rapid(u, 3200, regress, drawMutant(bases), check)
 	enumerateMutants(u, check)
 }
 
@@ -659,10 +660,10 @@ func TestMutants(t *testing.T) {
 // rotates with VERIF_SEED and the site), sharded; larger specs (except the two
 // largest files, which are left out) are sampled by a seeded hash.
 const (
-	enumLimit     = 40 << 10  // exhaustive up to this size (≈ 58 000 mutants)
-	sampledLimit  = 600 << 10 // larger bases (seconds per mutant) are sampled
+	enumLimit     = 16 << 10  // exhaustive up to this size (≈ 37 000 mutants)
+	sampledLimit  = 600 << 10 // larger bases (up to seconds per mutant) are sampled
 	enumParallel  = 2
-	sampledPerBig = 400
+	sampledPerBig = 150
 )
 
 func hash64(parts ...any) uint64 {
